@@ -3,30 +3,59 @@
 package namesys
 
 import (
-	"fmt"
 	"time"
+
+	lru "github.com/hashicorp/golang-lru/v2"
+	ds "github.com/ipfs/go-datastore"
+	"github.com/libp2p/go-libp2p/core/routing"
 )
 
+// VerifCacheEntry is a read-only view of one resolver cache entry.
+type VerifCacheEntry struct {
+	Key  string
+	Val  string
+	TTL  time.Duration
+	Left time.Duration // remaining cache lifetime at the time given to VerifCacheDump (<= 0: expired, still occupying a slot)
+}
+
 // VerifCacheDump lists the entries of the resolver cache, least recently used
-// first: key, value, entry TTL and remaining cache lifetime at the given time
-// ("expired" when it has run out; the entry still occupies an LRU slot).
-// Read-only: Peek does not touch the recency order.
-func VerifCacheDump(n NameSystem, now time.Time) []string {
+// first. Read-only: Peek does not touch the recency order.
+func VerifCacheDump(n NameSystem, now time.Time) []VerifCacheEntry {
 	ns, ok := n.(*namesys)
 	if !ok || ns.cache == nil {
 		return nil
 	}
-	var out []string
+	var out []VerifCacheEntry
 	for _, k := range ns.cache.Keys() {
 		e, ok := ns.cache.Peek(k)
 		if !ok {
 			continue
 		}
-		left := "expired"
-		if d := e.cacheEOL.Sub(now); d > 0 {
-			left = d.String()
-		}
-		out = append(out, fmt.Sprintf("%s=%s ttl=%s left=%s", k, e.val, e.ttl, left))
+		out = append(out, VerifCacheEntry{Key: k, Val: e.val.String(), TTL: e.ttl, Left: e.cacheEOL.Sub(now)})
 	}
 	return out
+}
+
+// VerifClone builds a second name system with the same options as n over the
+// given routing system and datastore, and with a copy of n's resolver cache
+// (same entries, same recency order). cacheSize must be the size n was built
+// with. n is not modified (Keys and Peek do not touch the recency order).
+func VerifClone(n NameSystem, r routing.ValueStore, d ds.Datastore, cacheSize int) NameSystem {
+	ns := n.(*namesys)
+	c := &namesys{ds: d, dnsResolver: ns.dnsResolver, staticMap: ns.staticMap, maxCacheTTL: ns.maxCacheTTL}
+	if ns.cache != nil {
+		cache, err := lru.New[string, cacheEntry](cacheSize)
+		if err != nil {
+			panic(err)
+		}
+		for _, k := range ns.cache.Keys() {
+			if e, ok := ns.cache.Peek(k); ok {
+				cache.Add(k, e)
+			}
+		}
+		c.cache = cache
+	}
+	c.ipnsResolver = NewIPNSResolver(r)
+	c.ipnsPublisher = NewIPNSPublisher(r, d)
+	return c
 }
